@@ -216,3 +216,17 @@ def pl_family(tier, seed, kind="general", n_quick=15, n_thorough=300, **opts):
     for _ in range(n):
         out.append(random_skeleton(rng, max_nodes=(5 if tier == "quick" else rng.choice([3, 5, 7])), **opts))
     return out
+
+
+def with_subclass_leaves(spec):
+    """every leaf becomes an instance of a user-defined subclass of puan.variable"""
+    s = copy.deepcopy(spec)
+
+    def go(n):
+        if n["t"] == "var":
+            n["sub"] = True
+            n.pop("str", None)
+        for c in n.get("ch", []):
+            go(c)
+    go(s)
+    return s
